@@ -203,7 +203,7 @@ def _canon(pairs):
     return out
 
 
-def make_case(doc, dl, acc):
+def make_case(doc, dl, acc, eol='\n'):
     paths = []
     insts = []
     comp = {}
@@ -213,7 +213,7 @@ def make_case(doc, dl, acc):
         for ei, c in enumerate(s.node.children):
             if c.kind == 'comp':
                 comp['%d:%d' % (i, ei)] = True
-    return {'text': doc.text(term=dl[0], ele=dl[1], sub=dl[2], rep=dl[3], eol='' if dl[0] == '\n' else '\n'),
+    return {'text': doc.text(term=dl[0], ele=dl[1], sub=dl[2], rep=dl[3], eol='' if dl[0] == '\n' else eol),
             'paths': paths, 'insts': insts, 'composite_pos': comp,
             'meta': {'file': doc.entry['file'], 'delims': list(dl)}}
 
@@ -324,7 +324,7 @@ def run_entry(entry, n, seed, acc, tier):
                 if res is not None:
                     doc = res[0]
                     vfaults.append(kind)
-        c = make_case(doc, dl, acc)
+        c = make_case(doc, dl, acc, eol=ch.choice(['\n', '\n', '', '\r\n']))
         c['notused'] = [list(x) for x in notused]
         c['meta']['value_faults'] = vfaults
         if ch.chance(.25):
@@ -351,7 +351,7 @@ def run_mixed(n, seed, acc):
             doc = c02.build_mixed(ch, flavor=ch.choice(['markup', 'plain']), values_avoid='~*:^' + ''.join(dl))
         except docgen.GenFail:
             return {'skip': 'genfail'}
-        c = make_case(doc, dl, acc)
+        c = make_case(doc, dl, acc, eol=ch.choice(['\n', '\n', '', '\r\n']))
         c['meta']['file'] = 'mixed'
         c['meta']['parts'] = [e['file'] for e in doc.parts]
         c['notused'] = []
